@@ -79,7 +79,7 @@ fn judge(case: &SchedCase, prep: &State, snap: &Snap, legit: &(BTreeSet<String>,
     // (a)
     for b in cache_audit(&snap.fs)
     {
-        out.push(Finding { property: "C11", what: format!("cache not content-addressed at a crash point: {}", at), detail: b });
+        out.push(Finding { property: "C07", what: format!("cache not content-addressed at a crash point: {}", at), detail: b });
     }
     // (b)
     if !snap.in_cmd && snap.torn.is_none()
@@ -89,7 +89,7 @@ fn judge(case: &SchedCase, prep: &State, snap: &Snap, legit: &(BTreeSet<String>,
         let after = content_set(&snap.fs, &paths);
         for lost in before.difference(&after)
         {
-            out.push(Finding { property: "C11", what: format!("previously existing content lost at a crash point: {}", at), detail: format!("{:?}", show(lost)) });
+            out.push(Finding { property: "C08", what: format!("previously existing content lost at a crash point: {}", at), detail: format!("{:?}", show(lost)) });
         }
     }
     // (c)
@@ -133,6 +133,22 @@ fn judge(case: &SchedCase, prep: &State, snap: &Snap, legit: &(BTreeSet<String>,
             }
             else
             {
+                // the recovery build is a quiescent point again: the cache must be content-addressed
+                for b in cache_audit(&rr.fs)
+                {
+                    out.push(Finding { property: "C07", what: format!("cache not content-addressed after the build that follows a crash: {}", at), detail: b });
+                }
+                // and nothing that was there at the crash instant may be lost by the recovery (ruler's own actions)
+                if !snap.in_cmd && snap.torn.is_none()
+                {
+                    let paths = all_declared_targets(&case.sc.variants);
+                    let before = content_set(&snap.fs, &paths);
+                    let after = content_set(&rr.fs, &paths);
+                    for lost in before.difference(&after)
+                    {
+                        out.push(Finding { property: "C08", what: format!("content present at the crash instant is lost by the next build: {}", at), detail: format!("{:?}", show(lost)) });
+                    }
+                }
                 for r in &scope
                 {
                     for t in rules[*r].sorted_targets()
@@ -179,7 +195,7 @@ pub fn crash_cases(tier: &str) -> Vec<SchedCase>
     all.into_iter().filter(|c| tier == "thorough" || quick.contains(&c.name.as_str())).collect()
 }
 
-pub fn run_crash(rep: &mut Report, tier: &str)
+pub fn run_crash(rep: &mut Report, tier: &str, id: &str)
 {
     let thorough = tier == "thorough";
     let mut total_snaps = 0u64;
@@ -298,6 +314,7 @@ pub fn run_crash(rep: &mut Report, tier: &str)
         {
             let s = &snaps[*i];
             let what = format!("the next build panics or hangs when ruler was killed right after [{}]", s.desc);
+            if id != "C11" { continue; }
             rep.violation(Violation
             {
                 property: "C11".into(),
@@ -310,10 +327,12 @@ pub fn run_crash(rep: &mut Report, tier: &str)
         for (i, f) in findings.lock().unwrap().iter()
         {
             if f.property == "HARNESS" { rep.machinery(format!("case {}: {}", case.name, f.what)); continue; }
+            // C11 owns every crash finding; C07 / C08 own the ones about their own invariant
+            if id != "C11" && f.property != id { continue; }
             // signature: sizes of torn writes abstracted
             let mut w = f.what.clone();
             while let Some(b) = w.find(" bytes)") { match w[..b].rfind(" (") { Some(a) => w.replace_range(a..b + 7, ""), None => break } }
-            let sig = format!("C11:crash:{}", w);
+            let sig = format!("{}:crash:{}", id, w);
             by_sig.entry(sig).or_insert((*i, f.clone()));
         }
         for (sig, (i, f)) in by_sig
@@ -321,7 +340,7 @@ pub fn run_crash(rep: &mut Report, tier: &str)
             let s = &snaps[i];
             rep.violation(Violation
             {
-                property: "C11".into(),
+                property: id.to_string(),
                 signature: sig,
                 summary: format!("case {} [{} then {}], mutation #{}: {} — {}", case.name, hist::ops_short(&case.pre), case.op.short(), s.after_mut, f.what, f.detail),
                 replay: json!({"engine": "crash", "case": case.name, "crash_desc": s.desc, "what": f.what}),
